@@ -287,7 +287,7 @@ def run(ctx):
     if ctx.shard == 1 % ctx.nshards:
         from vf.repo_corpus import documents
 
-        for c in documents():
+        for c in (ctx.guard("repo-doc", None, documents) or []):
             case = {**c, "configs": [list(x) for x in allcfg] + [[None, False]]}
 
             def go(case=case):
